@@ -133,7 +133,8 @@ def random_hists(rng, n):
                 attrs.append(("Note", [rng.choice(["x", "y"]), rng.choice(["x", "z"])][: rng.choice([1, 2])]))
             if rng.random() < 0.25:     # attribute keys that are also names of columns / of Feature fields
                 attrs.append((rng.choice(["source", "score", "strand", "seqid", "featuretype", "frame", "id", "extra", "bin"]), [rng.choice(["curated", "predicted", "7"])]))
-            arr.append(G.feat("exon", rng.choice([1, 1, 2, 3]), 9, attrs, source=rng.choice(["s", "s", "t", "u"]),
+            zero = rng.random() < 0.12        # a zero-length feature (end = start - 1): len(feature) == 0, still a feature like any other
+            arr.append(G.feat("exon", 10 if zero else rng.choice([1, 1, 2, 3]), 9, attrs, source=rng.choice(["s", "s", "t", "u"]),
                               strand=rng.choice(["+", "+", "-"]), score=rng.choice([".", ".", "5"])))
         k = rng.choice([0, 0, 1, 2])
         k = min(k, len(arr) - 1)
